@@ -1,7 +1,7 @@
 """C05 — dimensionally incompatible operations fail loudly and change nothing."""
 from hypothesis import given, strategies as st
 
-from bv import core, dims, env, gen, snapshot
+from bv import core, dims, env, gen, legacy, snapshot
 from bv.model import UnitModel
 from bv.util import partition
 
@@ -14,7 +14,7 @@ RULE = (
     "(all 2.36 M ordered pairs in thorough for db.Convert, a rotation-selected subset in quick; the object routes "
     "Scalar.GetValue/CreateCopy, Array.GetValues/CreateCopy (list, ndarray), FixedArray.IndexAsScalar/ChangingIndex, "
     "FractionScalar.GetValue, Quantity.Convert/ConvertScalarValue, db.Convert by category name and on containers on a "
-    "subset) must raise. (c) (category, unit) pairs of different quantity types (all 501 k in thorough for "
+    "subset; targets also written in their legacy spellings) must raise. (c) (category, unit) pairs of different quantity types (all 501 k in thorough for "
     "ObtainQuantity, a subset for Scalar/Array/FixedArray/FractionScalar construction in every argument order) must "
     "raise. (d) generated sequences interleaving such rejected calls with valid operations on a pool: after every "
     "rejected call the full registry snapshot (all public getters + both conversion functions sampled), every pool "
@@ -123,6 +123,10 @@ class Sweep:
         self.cats = cats
         self.units = [(qt, i.unit) for qt in sorted(db.quantity_types) if qt != "Unknown" for i in db.quantity_types[qt]]
         self.qt_of = {u: qt for qt, u in self.units}
+        # legacy spellings are unit strings the API accepts too: cross-type targets written that way must be rejected as well
+        self.legacy = sorted(legacy.spellings(db).items())
+        for l, cur in self.legacy:
+            self.qt_of[l] = self.qt_of[cur]
 
     def object_routes(self, qt, u, v, c, x):
         import numpy
@@ -244,7 +248,7 @@ def run_sweep(spec, ctx):
                 break
             others = [v for v in all_units if sw.qt_of[v] != qt]
             if thorough:
-                targets = others
+                targets = others + [l for l, _ in sw.legacy if sw.qt_of[l] != qt]
                 every = 9
             else:
                 step = 97 + (seed % 13)
@@ -252,6 +256,8 @@ def run_sweep(spec, ctx):
                 targets = [others[(start + k * step) % len(others)] for k in range(14)]
                 # near misses first: symbols that start like u
                 targets += [v for v in others if _near(u, v)][:6]
+                leg = [l for l, _ in sw.legacy if sw.qt_of[l] != qt]
+                targets += [leg[(idx * 5 + k * 11 + seed) % len(leg)] for k in range(4)]
                 every = 1
             sw.convert_row(qt, u, targets, xs[idx % len(xs)], every)
         ctx.exhaustive["cross-type ordered unit pairs (db.Convert)"] = "all 2 359 264" if thorough else "rotation-selected subset"
@@ -263,12 +269,14 @@ def run_sweep(spec, ctx):
             qt = db.GetCategoryQuantityType(c)
             others = [v for v in all_units if sw.qt_of[v] != qt]
             if thorough:
-                us, every = others, 11
+                us, every = others + [l for l, _ in sw.legacy if sw.qt_of[l] != qt], 11
             else:
                 step = 89 + (seed % 11)
                 start = (idx * 17 + seed * 5) % len(others)
                 us = [others[(start + k * step) % len(others)] for k in range(30)]
                 us += [v for v in others if _near(v, db.GetDefaultUnit(c) or "")][:6]
+                leg = [l for l, _ in sw.legacy if sw.qt_of[l] != qt]
+                us += [leg[(idx * 7 + k * 13 + seed) % len(leg)] for k in range(6)]
                 every = 1
             sw.category_row(c, us, xs[idx % len(xs)], every)
         ctx.exhaustive["(category, unit) pairs of different quantity types (ObtainQuantity)"] = "all 501 422" if thorough else "rotation-selected subset"
